@@ -4,8 +4,7 @@
 
 from __future__ import annotations
 
-import functools
-from typing import final
+from typing import Final, final
 
 from ..utility._csharp_compatibility import _private, _sealed
 
@@ -19,11 +18,8 @@ class _EraMeta(type):
     An important implementation detail is that equality checks in the codebase
     depend on these properties returning the same instance, because __eq__ is not
     implemented (so we rely on reference equality). Era._ctor() is called from
-    each of these properties, and is decorated with `@functools.cache` to provide
-    just that behaviour.
-
-    Why not use functools.cached_property?
-    https://discuss.python.org/t/finding-a-path-forward-for-functools-cached-property/23757
+    each of these properties, and keeps a registry of the instances it has created to
+    provide just that behaviour.
     """
 
     @property
@@ -105,13 +101,13 @@ class Era(metaclass=_EraMeta):
     __name: str
     __resource_identifier: str
 
+    __INSTANCES: Final[dict[tuple[str, str], Era]] = {}
+
     @classmethod
-    @functools.cache
     def _ctor(cls, name: str, resource_identifier: str) -> Era:
         """Internal constructor implementation.
 
-        Note: This constructor is cached and will return the same instance each
-        time it is called with the same arguments.
+        Note: This constructor will return the same instance each time it is called with the same arguments.
 
         This is an implementation detail which is particular to pyoda-time and is
         not present in the mother project. (Although it is intended to mimic the
@@ -122,12 +118,15 @@ class Era(metaclass=_EraMeta):
         but as Era does not implement __eq__(), referential equality is relied upon
         hence the need to return the same instance each time this is called.
 
-        Why not use functools.cached_property? Well, maybe in future:
-        https://discuss.python.org/t/finding-a-path-forward-for-functools-cached-property/23757
+        The instances are registered with dict.setdefault rather than memoised with functools.cache, because the
+        latter lets two threads which both miss the cache each build (and keep using) their own instance.
         """
-        self = super().__new__(cls)
-        self.__name = name
-        self.__resource_identifier = resource_identifier
+        key = (name, resource_identifier)
+        if (self := cls.__INSTANCES.get(key)) is None:
+            self = super().__new__(cls)
+            self.__name = name
+            self.__resource_identifier = resource_identifier
+            self = cls.__INSTANCES.setdefault(key, self)
         return self
 
     def __str__(self) -> str:
